@@ -104,11 +104,13 @@ def internal_server_error(req, *_):
     in dispatch_table.errors. If poor_Debug variable is to On, Tracaback
     will be generated.
     """
-    handler = {"module": None, "name": None}
+    handler = {"module": None, "name": None, "args": None}
     if req.uri_handler:
-        handler["module"] = req.uri_handler.__module__
-        handler["name"] = req.uri_handler.__name__
-        handler["args"] = ', '.join(req.uri_handler.__code__.co_varnames)
+        handler["module"] = getattr(req.uri_handler, '__module__', None)
+        handler["name"] = getattr(req.uri_handler, '__name__', None)
+        code = getattr(req.uri_handler, '__code__', None)
+        if code:
+            handler["args"] = ', '.join(code.co_varnames)
 
     log.exception("Handler `%s.%s(%s)' for %s [%s]",
                   handler["module"], handler["name"], handler["args"],
@@ -136,7 +138,7 @@ def internal_server_error(req, *_):
 
     if req.debug:
         uri = html_escape(req.uri)
-        uri_rule = html_escape(req.uri_rule)
+        uri_rule = html_escape(req.uri_rule or '')
         res.write(
             "  <h2>Response detail</h2>\n"
             f"  remote host: <b><code>{req.remote_host}</code></b><br/>\n"
